@@ -1,20 +1,28 @@
 import A2Verif.Model.Hex
-import A2Verif.Model.Srv
+import A2Verif.Model.SrvCfg
 /-!
-driver family `c18`: replay of an implementation event trace through the protocol model.
+driver family `c18`: replay of an implementation event trace through the protocol model with settings
+and analyzer object (`Srv.stepC`).
 
 `c18 trace <errs> <tok>…` where `<errs>` is the list of text ids whose analysis returns `Err`
 (`-` = none; the diagnostics token of text `t` is `t` itself) and each token is one observed event:
 
 * `O:u:v:t` didOpen, `C:u:v:t` didChange, `S:u:t` didSave, `X:u` didClose, `R` request, `T` idle pass
-* `G:live:u1,u2,…` configuration response, relaunch part (`live` 0/1, relaunch order as logged, `-` = no
-  document); `L` its lock part (not observable through the hooks, never emitted by the harness)
+* `W:c` the client has sent settings `c` in answer to `workspace/configuration`: from here on the main
+  thread is in (or on its way into) the first half of the handler, which runs at the first moment at
+  which no job holds the analyzer — that moment is not observable through the hooks, so every placement
+  up to the matching `G` is tried; `L:c` = the first half observed exactly
+* `G:c:live:u1,u2,…` second half of the handler (`live` 0/1, relaunch order as logged, `-` = no document)
 * `A:id` job returned from `lock()` with the guard, `E:id` `lock()` returned `Err`
 * `F:id:r` job left the closure normally with `Some` (`r`=1) / `None` (`r`=0), `D:id` job panicked
 * `H:id:k` main loop popped job `id` (`k` = `p` joined `Ok(Some)`, `n` `Ok(None)`, `e` `Err`)
+* `K:i:c1,c2,…` observation about the `i`-th publication (0-based): the settings under which a *new*
+  analyzer reproduces the published diagnostics from that publication's text alone (`-` = none does)
 
-Every event must be enabled in the model *and* lead to the observed outcome; the answer is
-`ok pub=<u:v:t,…> lock=<free|held|poisoned> queue=<n>` or `stuck <index> <token>`.
+Every event must be enabled in the model *and* lead to the observed outcome, and the settings the model
+says the publishing job saw must be among the observed ones; the answer is
+`ok pub=<u:v:t,…> lock=<free|held|poisoned> queue=<n>`, `stuck <index> <token>` or
+`settings <i> model=<c> observed=<…>`.
 -/
 namespace A2Verif.Drv.C18
 open A2Verif.Srv
@@ -28,38 +36,46 @@ def parseVer (s : String) : Option Ver :=
 
 def jobSt (s : State) (id : Nat) : Option JobSt := (findJob s.queue id).map (·.st)
 
+abbrev St := CState Nat
+
+/-- the analyzer of the replay: resets (the result is a function of settings and text), texts in `errs`
+fail; the diagnostics token is the text id, the settings are recovered from the ghost record -/
+def analyzer (errs : List Nat) : CAnalyzer Nat :=
+  { fresh := 0, setCfg := fun _ a => a, run := fun _ _ t => (if errs.contains t then none else some t, t) }
+
 /-- one observed event: step the model and check the observed outcome -/
-def replay1 (an : Text → Option Diags) (s : State) (tok : String) : Option State :=
+def replay1 (A : CAnalyzer Nat) (cs : St) (tok : String) : Option St :=
+  let s := cs.srv
   match tok.splitOn ":" with
-  | ["O", u, v, t] => do step an s (.opn (← u.toNat?) (← v.toNat?) (← t.toNat?))
-  | ["C", u, v, t] => do step an s (.chg (← u.toNat?) (← v.toNat?) (← t.toNat?))
-  | ["S", u, t] => do step an s (.save (← u.toNat?) (← t.toNat?))
-  | ["X", u] => do step an s (.close (← u.toNat?))
-  | ["R"] => step an s .request
-  | ["L"] => step an s .configLock
+  | ["O", u, v, t] => do stepC A cs (.opn (← u.toNat?) (← v.toNat?) (← t.toNat?))
+  | ["C", u, v, t] => do stepC A cs (.chg (← u.toNat?) (← v.toNat?) (← t.toNat?))
+  | ["S", u, t] => do stepC A cs (.save (← u.toNat?) (← t.toNat?))
+  | ["X", u] => do stepC A cs (.close (← u.toNat?))
+  | ["R"] => stepC A cs .request
+  | ["L", c] => do stepC A cs (.configLock (← c.toNat?))
   | ["T"] =>
     -- an idle pass: the front job, if any, must be unfinished
     match s.queue with
-    | j :: _ => if j.st.finished then none else step an s .tick
-    | [] => step an s .tick
-  | ["G", live, order] => do
+    | j :: _ => if j.st.finished then none else stepC A cs .tick
+    | [] => stepC A cs .tick
+  | ["G", c, live, order] => do
     let l ← if live == "1" then some true else if live == "0" then some false else none
-    step an s (.config l (← A2Verif.Hex.parseNatList order))
+    stepC A cs (.config (← c.toNat?) l (← A2Verif.Hex.parseNatList order))
   | ["A", id] => do
     let i ← id.toNat?
-    let s' ← step an s (.acquire i)
-    if jobSt s' i == some .holding then some s' else none
+    let cs' ← stepC A cs (.acquire i)
+    if jobSt cs'.srv i == some .holding then some cs' else none
   | ["E", id] => do
     let i ← id.toNat?
-    let s' ← step an s (.acquire i)
-    if jobSt s' i == some (.done none) then some s' else none
+    let cs' ← stepC A cs (.acquire i)
+    if jobSt cs'.srv i == some (.done none) then some cs' else none
   | ["F", id, r] => do
     let i ← id.toNat?
-    let s' ← step an s (.finish i)
-    match jobSt s' i with
-    | some (.done x) => if (x.isSome && r == "1") || (x.isNone && r == "0") then some s' else none
+    let cs' ← stepC A cs (.finish i)
+    match jobSt cs'.srv i with
+    | some (.done x) => if (x.isSome && r == "1") || (x.isNone && r == "0") then some cs' else none
     | _ => none
-  | ["D", id] => do step an s (.die (← id.toNat?))
+  | ["D", id] => do stepC A cs (.die (← id.toNat?))
   | ["H", id, k] => do
     let i ← id.toNat?
     match s.queue with
@@ -71,16 +87,64 @@ def replay1 (an : Text → Option Diags) (s : State) (tok : String) : Option Sta
           | .done none => k == "n"
           | .dead => k == "e"
           | _ => false
-        if okk then step an s .tick else none
+        if okk then stepC A cs .tick else none
     | [] => none
   | _ => none
 
-def replay (an : Text → Option Diags) : State → Nat → List String → Except String State
-  | s, _, [] => .ok s
-  | s, i, tok :: rest =>
-    match replay1 an s tok with
-    | some s' => replay an s' (i + 1) rest
-    | none => .error s!"stuck {i} {tok}"
+/-- settings the model says the job behind the `i`-th publication saw -/
+def pubCfg (cs : St) (i : Nat) : Option Cfg := do
+  let p ← cs.srv.published[i]?
+  let f ← cs.fin.find? (fun f => f.id = p.id)
+  some f.cfg
+
+/-- check the `K` observations against the final state -/
+def checkObs (cs : St) : List (Nat × List Nat) → Except (Nat × String) Unit
+  | [] => .ok ()
+  | (i, cands) :: rest =>
+    match pubCfg cs i with
+    | none => .error (1000000, s!"settings {i} model=none")
+    | some c =>
+      if cands.contains c then checkObs cs rest
+      else .error (1000000, s!"settings {i} model={c} observed={cands}")
+
+def better (a b : Except (Nat × String) St) : Except (Nat × String) St :=
+  match a, b with
+  | .ok s, _ => .ok s
+  | _, .ok s => .ok s
+  | .error (i, m), .error (j, n) => if j > i then .error (j, n) else .error (i, m)
+
+/-- replay with the unobservable moment of the first half of the configuration handler (`want`)
+placed at every enabled position up to the matching `G`; the error reported is the one of the
+placement that got furthest -/
+def replay (A : CAnalyzer Nat) (obs : List (Nat × List Nat)) : St → Option Cfg → Nat → List String → Except (Nat × String) St
+  | cs, _, _, [] => (checkObs cs obs).map (fun _ => cs)
+  | cs, want, i, tok :: rest =>
+    let here : Except (Nat × String) St :=
+      match tok.splitOn ":" with
+      | ["W", c] =>
+        match c.toNat?, want with
+        | some c, none => replay A obs cs (some c) (i + 1) rest
+        | _, _ => .error (i, s!"stuck {i} {tok}")
+      | "K" :: _ => replay A obs cs want (i + 1) rest
+      | _ =>
+        match replay1 A cs tok with
+        | some cs' => replay A obs cs' want (i + 1) rest
+        | none => .error (i, s!"stuck {i} {tok}")
+    match want with
+    | none => here
+    | some c =>
+      -- the first half of the handler runs now (if it can) …
+      let now : Except (Nat × String) St :=
+        match stepC A cs (.configLock c) with
+        | some cs' =>
+          match replay1 A cs' tok with
+          | some cs'' => replay A obs cs'' none (i + 1) rest
+          | none => .error (i, s!"stuck {i} {tok}")
+        | none => .error (i, s!"stuck {i} {tok} (analyzer held)")
+      -- … or later; `G` itself cannot precede it
+      match tok.splitOn ":" with
+      | "G" :: _ => now
+      | _ => better now here
 
 def showLock : Lock → String
   | .free => "free"
@@ -90,16 +154,27 @@ def showLock : Lock → String
 def showPubs (ps : List Pub) : String :=
   if ps.isEmpty then "-" else ",".intercalate (ps.map (fun p => s!"{p.uri}:{showVer p.ver}:{p.diags}"))
 
+def parseObs : List String → Option (List (Nat × List Nat))
+  | [] => some []
+  | tok :: rest =>
+    match tok.splitOn ":" with
+    | ["K", i, cs] => do
+      let i ← i.toNat?
+      let l ← A2Verif.Hex.parseNatList cs
+      let r ← parseObs rest
+      some ((i, l) :: r)
+    | _ => parseObs rest
+
 def handle (toks : List String) : String :=
   match toks with
   | "trace" :: errs :: evs =>
-    match A2Verif.Hex.parseNatList errs with
-    | none => "bad-request"
-    | some es =>
-      let an : Text → Option Diags := fun t => if es.contains t then none else some t
-      match replay an init 0 evs with
-      | .ok s => s!"ok pub={showPubs s.published} lock={showLock s.lock} queue={s.queue.length}"
-      | .error e => e
+    match A2Verif.Hex.parseNatList errs, parseObs evs with
+    | some es, some obs =>
+      let A := analyzer es
+      match replay A obs (cinit A) none 0 evs with
+      | .ok cs => s!"ok pub={showPubs cs.srv.published} lock={showLock cs.srv.lock} queue={cs.srv.queue.length}"
+      | .error (_, e) => e
+    | _, _ => "bad-request"
   | _ => "bad-request"
 
 end A2Verif.Drv.C18
